@@ -527,6 +527,9 @@ package json
 //@ func newline
 //@   requires args: dst != nil
 //@   modifies ghost(BufContent)
+//@   ensures[C15] only-appends: len(BufContent[dst]) >= len(old(BufContent)[dst]) && (forall x *bytes.Buffer {BufContent[x]} :: x != dst ==> BufContent[x] == old(BufContent)[x])
+//@   loop 1
+//@   invariant only-appends: len(BufContent[dst]) >= len(old(BufContent)[dst]) && (forall x *bytes.Buffer {BufContent[x]} :: x != dst ==> BufContent[x] == old(BufContent)[x])
 //@ func nonSpace
 //@   modifies nothing
 //@ func foldFunc
@@ -543,3 +546,21 @@ package json
 //@   invariant in-range: 0 <= r && r <= len(s)
 //@   loop 2
 //@   invariant in-range: 0 <= r && r <= len(s) && 0 <= w && w + 4 <= len(b) && b != nil && fresh(b)
+
+// ---- Indent: the same automaton run; every significant byte is copied verbatim, only white space is added (C15) ----
+//@ func Indent
+//@   requires args: dst != nil
+//@   modifies ghost(BufContent)
+//@   callsite[C15,C16] step#1 every-byte-in-order-to-the-current-state: arg_c == src[rangeindex + 1]
+//@   callsite[C15] WriteByte#1 string-and-literal-bytes-verbatim: arg_c == c
+//@   callsite[C15] WriteByte#2 opening-bracket-verbatim: arg_c == c
+//@   callsite[C15] WriteByte#3 comma-verbatim: arg_c == c
+//@   callsite[C15] WriteByte#4 colon-verbatim: arg_c == c
+//@   callsite[C15] WriteByte#5 one-space-after-colon: arg_c == ' '
+//@   callsite[C15] WriteByte#6 closing-bracket-verbatim: arg_c == c
+//@   callsite[C15] WriteByte#7 other-punctuation-verbatim: arg_c == c
+//@   ensures[C16] nothing-appended-when-rejected: result != nil ==> len(BufContent[dst]) == len(old(BufContent)[dst])
+//@   ensures[meta C16] accepts-iff-wf: (result == nil) <==> wf(src)
+//@   loop 1
+//@   invariant shape: sShape(scan) && len(BufContent[dst]) >= len(old(BufContent)[dst]) && scan.bytes == rangeindex + 1 && 0 - (rangeindex + 1) <= depth && depth <= rangeindex + 1
+//@   invariant private-stack: scan.parseState.arr == 0 || fresh(scan.parseState)
